@@ -682,3 +682,63 @@ def sink_identity(prog: Program) -> List[Instance]:
                             "the token covers the endpoint" if has else
                             "the token is (bucket, key) only: the same object name on two S3-compatible stores is one task / one shared Variable, the second upload never happens", f.where()))
     return out
+
+
+# ---------------------------------------------------------------------------------------------
+# C20 / C02: a dispatch on the number of points agrees with the precondition the callee asserts
+# ---------------------------------------------------------------------------------------------
+def dispatch_matches_precondition(prog: Program) -> List[Instance]:
+    """Seed C20-r2s1 (stated-belief contradiction, Engler et al.): `Poly2d.fit` picks the model by the number of
+    points and each `_fitK` asserts the number it needs (`assert N >= 9`). The lower bound under which `fit` calls
+    `_fitK` must equal the bound `_fitK` asserts: a stricter dispatch (`N > 9`) sends a determined system of
+    exactly 9 points to the lower-order model - exactly representable bi-quadratic mappings are no longer
+    reproduced - and a weaker one trips the assert. Integer bounds are normalised (`N > k` is `N >= k+1`)."""
+    out: List[Instance] = []
+    ci = prog.cls("math:Poly2d")
+    fit = ci.methods.get("fit")
+    if fit is None:
+        return [Instance("R-SIBLING", f"{ci.qual}#dispatch-bound", UNDET, "Poly2d.fit not found", "")]
+
+    def lower_bound(test: ast.AST, var: str) -> Optional[int]:
+        if isinstance(test, ast.Compare) and len(test.ops) == 1 and isinstance(test.left, ast.Name) and test.left.id == var:
+            k = const_num(test.comparators[0])
+            if k is None:
+                return None
+            if isinstance(test.ops[0], ast.GtE):
+                return int(k)
+            if isinstance(test.ops[0], ast.Gt):
+                return int(k) + 1
+        return None
+
+    cond = Conditions(fit.body)
+    n = 0
+    for c in (x for x in walk_own(fit.node) if isinstance(x, ast.Call)):
+        nm = call_name(c)
+        callee = ci.methods.get(nm or "")
+        if callee is None or callee is fit:
+            continue
+        asserted = None
+        avar = None
+        for st in callee.node.body:
+            if isinstance(st, ast.Assert) and isinstance(st.test, ast.Compare) and isinstance(st.test.left, ast.Name):
+                b = lower_bound(st.test, st.test.left.id)
+                if b is not None:
+                    asserted, avar = b, st.test.left.id
+                    break
+        if asserted is None:
+            continue
+        bounds = [lower_bound(e, avar) for e, p in conds_at(cond, enclosing_stmt(c)) if p]
+        bounds = [b for b in bounds if b is not None]
+        if not bounds:
+            # reached on the fall-through path: the bound is what the earlier raise leaves
+            continue
+        n += 1
+        disp = max(bounds)
+        ok = disp == asserted
+        out.append(Instance("R-SIBLING", f"{fit.qual}#dispatch-bound:{nm}", OK if ok else BAD,
+                            f"{nm} is called for {avar} >= {disp}, which is what it asserts" if ok else
+                            f"{nm} asserts {avar} >= {asserted} but is only called for {avar} >= {disp}: a system of exactly {asserted} points - determined for that model - is sent to the lower-order model and mappings that model cannot represent are no longer reproduced" if disp > asserted else
+                            f"{nm} asserts {avar} >= {asserted} but is called for {avar} >= {disp}: the assert fails for {disp} points", fit.where(c)))
+    if n < 2:
+        out.append(Instance("R-SIBLING", f"{fit.qual}#dispatch-bound", UNDET, f"expected the 9- and 4-point dispatches, found {n}", fit.where()))
+    return out
